@@ -9,15 +9,18 @@ comparator and in `char` signedness.
 -/
 namespace Polyseed
 
-def treeOk (cmp : List Nat → List Nat → Int) : Nat → List (List Nat) → Bool
+/-- `keys w`: the tokens that must be found at the index of table word `w` (the word itself, and for the
+abbreviating languages its admissible abbreviations) -/
+def treeOk (cmp : List Nat → List Nat → Int) (keys : List Nat → List (List Nat)) : Nat → List (List Nat) → Bool
   | 0, seg => seg.isEmpty
   | fuel + 1, seg =>
     if seg.isEmpty then true else
     let m := seg.length / 2
     let pivot := seg.getD m []
-    (cmp pivot pivot == 0) && (seg.take m).all (fun k => decide (cmp k pivot < 0))
-      && (seg.drop (m + 1)).all (fun k => decide (cmp k pivot > 0))
-      && treeOk cmp fuel (seg.take m) && treeOk cmp fuel (seg.drop (m + 1))
+    (keys pivot).all (fun k => cmp k pivot == 0)
+      && (seg.take m).all (fun w => (keys w).all (fun k => decide (cmp k pivot < 0)))
+      && (seg.drop (m + 1)).all (fun w => (keys w).all (fun k => decide (cmp k pivot > 0)))
+      && treeOk cmp keys fuel (seg.take m) && treeOk cmp keys fuel (seg.drop (m + 1))
 
 /-- the elements `l..u-1` of the table -/
 def segOf (ws : Array (List Nat)) (l u : Nat) : List (List Nat) := (ws.toList.drop l).take (u - l)
@@ -52,19 +55,19 @@ theorem mem_segOf (ws : Array (List Nat)) (l u i : Nat) (hu : u ≤ ws.size) (hl
   exact List.getElem_mem _
 
 /-- soundness: if the tree check passes on the segment `l..u-1`, `bsearch` restricted to `[l,u)` returns `i` for the key `ws[i]`. -/
-theorem treeOk_sound (cmp : List Nat → List Nat → Int) (ws : Array (List Nat)) :
-    ∀ (fuel l u : Nat), u ≤ ws.size → treeOk cmp fuel (segOf ws l u) = true →
-      ∀ (i : Nat) (hi : i < ws.size), l ≤ i → i < u → ∀ f, u - l < f →
-        bsearchAux (cmp ws[i]) ws f l u = some i := by
+theorem treeOk_sound (cmp : List Nat → List Nat → Int) (keys : List Nat → List (List Nat)) (ws : Array (List Nat)) :
+    ∀ (fuel l u : Nat), u ≤ ws.size → treeOk cmp keys fuel (segOf ws l u) = true →
+      ∀ (i : Nat) (hi : i < ws.size), l ≤ i → i < u → ∀ key ∈ keys ws[i], ∀ f, u - l < f →
+        bsearchAux (cmp key) ws f l u = some i := by
   intro fuel
   induction fuel with
   | zero =>
-    intro l u hu h i hi hl hiu
+    intro l u hu h i hi hl hiu key hkey
     simp only [treeOk, List.isEmpty_iff] at h
     have := segOf_length ws l u hu
     rw [h] at this; simp at this; omega
   | succ fuel ih =>
-    intro l u hu h i hi hl hiu f hf
+    intro l u hu h i hi hl hiu key hkey f hf
     have hlen := segOf_length ws l u hu
     unfold treeOk at h
     have hne : (segOf ws l u).isEmpty = false := by
@@ -85,27 +88,28 @@ theorem treeOk_sound (cmp : List Nat → List Nat → Int) (ws : Array (List Nat
       simp only [hlu, ↓reduceIte, hidx, show l + (u - l) / 2 < ws.size by omega, ↓reduceDIte]
       rw [hpiv] at hpp hleft hright
       by_cases h1 : i < l + (u - l) / 2
-      · have hc := hleft _ (mem_segOf ws l (l + (u - l) / 2) i (by omega) hl h1)
+      · have hc := hleft _ (mem_segOf ws l (l + (u - l) / 2) i (by omega) hl h1) key hkey
         simp only [hc, ↓reduceIte]
-        exact ih l _ (by omega) htl i hi hl h1 f (by omega)
+        exact ih l _ (by omega) htl i hi hl h1 key hkey f (by omega)
       · by_cases h2 : i = l + (u - l) / 2
         · subst h2
-          have : ¬ (cmp ws[l + (u - l) / 2] ws[l + (u - l) / 2] < 0) := by omega
-          have h3 : ¬ (cmp ws[l + (u - l) / 2] ws[l + (u - l) / 2] > 0) := by omega
+          have hz := hpp key hkey
+          have : ¬ (cmp key ws[l + (u - l) / 2] < 0) := by omega
+          have h3 : ¬ (cmp key ws[l + (u - l) / 2] > 0) := by omega
           simp only [this, h3, ↓reduceIte]
-        · have hc := hright _ (mem_segOf ws (l + (u - l) / 2 + 1) u i hu (by omega) hiu)
-          have hn : ¬ (cmp ws[i] ws[l + (u - l) / 2] < 0) := by omega
+        · have hc := hright _ (mem_segOf ws (l + (u - l) / 2 + 1) u i hu (by omega) hiu) key hkey
+          have hn : ¬ (cmp key ws[l + (u - l) / 2] < 0) := by omega
           simp only [hn, hc, ↓reduceIte]
-          exact ih _ u hu htr i hi (by omega) hiu f (by omega)
+          exact ih _ u hu htr i hi (by omega) hiu key hkey f (by omega)
 
 /-- every table word, searched with the table's comparator through `bsearch`, is found at its own index. -/
-theorem bsearch_finds_all (cmp : List Nat → List Nat → Int) (ws : Array (List Nat))
-    (h : treeOk cmp (ws.size + 1) ws.toList = true) (i : Nat) (hi : i < ws.size) :
-    bsearch (cmp ws[i]) ws = some i := by
+theorem bsearch_finds_all (cmp : List Nat → List Nat → Int) (keys : List Nat → List (List Nat)) (ws : Array (List Nat))
+    (h : treeOk cmp keys (ws.size + 1) ws.toList = true) (i : Nat) (hi : i < ws.size) (key : List Nat) (hkey : key ∈ keys ws[i]) :
+    bsearch (cmp key) ws = some i := by
   have hs : segOf ws 0 ws.size = ws.toList := by
     simp only [segOf, List.drop_zero, Nat.sub_zero]
     exact List.take_of_length_le (by simp)
   unfold bsearch
-  exact treeOk_sound cmp ws (ws.size + 1) 0 ws.size (Nat.le_refl _) (by rw [hs]; exact h) i hi (Nat.zero_le _) hi _ (by omega)
+  exact treeOk_sound cmp keys ws (ws.size + 1) 0 ws.size (Nat.le_refl _) (by rw [hs]; exact h) i hi (Nat.zero_le _) hi key hkey _ (by omega)
 
 end Polyseed
